@@ -1457,6 +1457,32 @@ fn gen_case(rng: &mut Rng, n: usize, tier: &str, scratch: &std::path::Path, out:
                     ops.push(Op::Select(rng.below(2) as usize));
                     ops.push(Op::Get(1));
                 }
+                _ if !selecting && world.no_word.iter().any(|x| *x) && rng.chance(1, 5) => {
+                    // auto-commit pushes out a syllable that has no word at all: it is shown (and committed) by its
+                    // spelling, several characters for ONE symbol - exactly one symbol leaves the buffer for it and the
+                    // neighbours stay (seeded change C02-E)
+                    let nw: Vec<usize> = (0..world.syls.len()).filter(|i| world.no_word[*i]).collect();
+                    let mut o = opts_vec(&ed.editor_options());
+                    let lim = 1 + rng.below(3) as u32;
+                    o[6] = lim;
+                    o[8] = 0;
+                    o[11] = 0;
+                    o[12] = 1 + rng.below(2) as u32;
+                    ops.push(Op::Opts(o));
+                    ops.push(Op::Engine(o[12] as u8));
+                    let first = *rng.pick(&nw);
+                    for k in &world.keys[first] {
+                        ops.push(key_op(*k, none));
+                    }
+                    for _ in 0..(lim + 1 + rng.below(2) as u32) {
+                        let i = rng.below(world.syls.len() as u64) as usize;
+                        for k in &world.keys[i] {
+                            ops.push(key_op(*k, none));
+                        }
+                    }
+                    ops.push(Op::Get(1));
+                    ops.push(key_op(Enter, none));
+                }
                 _ if !selecting && world.chain.is_some() && rng.chance(1, 6) => {
                     // a user phrase added (Ctrl-digit, or Shift-arrows + Enter) over a range that ENDS INSIDE a converted
                     // two-syllable word; the buffer is committed, the same syllables are typed again and the alternatives
